@@ -20,8 +20,9 @@ RULE = ('operation sequences over the documented screen operations with argument
         'the same grid. non-trivial = the sequence changed a cell, the cursor or the saved cursor')
 ASSUMPTIONS = ['models/screen_ref.py implements the docstrings; cells the documentation does not determine (line vacated '
                'by scroll_up/scroll_down, part of the current line on the far side of the cursor under '
-               'erase_down/erase_up, scroll direction of cursor_up_reverse at the top, inverted scroll regions) are '
-               'masked until overwritten']
+               'erase_down/erase_up, scroll direction of cursor_up_reverse at the top) are masked until overwritten',
+               'a scroll region whose end row is above its start row contains no row: scrolling then moves nothing (cells '
+               'outside the region are never touched by scrolling)']
 REQUIRED = ['sequences', 'ops_executed', 'cells_compared', 'accessor_checks', 'enumerated_sequences']
 
 
